@@ -4,7 +4,7 @@ NOTE_COMMON = ("Trusted: Lean kernel, axioms propext/Classical.choice/Quot.sound
                "correspondence harness + generators, the stub-header from-source build; ")
 
 # property ids whose check has been reviewed by the coordinator and is claimed in MANIFEST.checks
-ENABLED = ["C22", "C26", "C39"]
+ENABLED = ["C03", "C22", "C26", "C39"]
 
 HOOK_COMMITS = []
 
